@@ -26,7 +26,7 @@ ERRS = [{"message": "sub failed", "path": ["a"], "extensions": {"code": "E"}}, {
 # frame kinds named in the statement
 ALPHABET = ["ack", "next", "ping", "pong", "complete", "error", "nonjson", "unknown", "missingtype", "next_nodata"]
 # extra frame classes, each judged under its own mechanism key
-EXTRA = ["json_nonobject", "next_falsy"]
+EXTRA = ["json_nonobject", "next_falsy", "error_empty", "error_nopayload"]
 
 
 class FrameGen:
@@ -57,6 +57,10 @@ class FrameGen:
         if kind == "next_nodata":
             return json.dumps([{"id": "x", "type": "next", "payload": {}}, {"id": "x", "type": "next"},
                                {"id": "x", "type": "next", "payload": {"errors": [{"message": "m"}]}}][n % 3])
+        if kind == "error_empty":
+            return json.dumps({"id": "x", "type": "error", "payload": []})  # an error frame is an error whatever it lists
+        if kind == "error_nopayload":
+            return json.dumps({"id": "x", "type": "error"})
         if kind == "json_nonobject":
             return json.dumps([[1], "x", 1, None, True, [{"type": "next"}]][n % 6])
         if kind == "next_falsy":
@@ -163,8 +167,8 @@ def reference(kinds: List[str], frames: List[str]):
             pass
         elif k == "complete":
             return res(("end", None), k)
-        elif k == "error":
-            return res(("multi", json.loads(f)["payload"]), k)
+        elif k in ("error", "error_empty", "error_nopayload"):
+            return res(("multi", json.loads(f).get("payload", [])), k)
         elif k in ("nonjson", "unknown", "missingtype", "next_nodata", "json_nonobject"):
             return res(("invalid", None), k)
     return res(("end", None))
